@@ -91,19 +91,21 @@ def parsePrefix (letters : List Char) (optI : Bool) : List Char → List Char ×
 inductive UnitKind | bit | byte
   deriving DecidableEq, Repr
 
-/-- `(b|bit|B)$` against the whole rest; Python's `$` also matches before one final newline -/
-def parseUnit : List Char → Option UnitKind
+/-- `(b|bit|B)` followed by the end anchor, against the whole rest.  `nlOk` says which anchor the
+    compiled regex has (generated per unit system): `$` also matches before one final newline
+    (`nlOk = true`, former finding N3-trailing-newline), `\Z` only at the very end. -/
+def parseUnit (nlOk : Bool) : List Char → Option UnitKind
   | ['b'] => some .bit
-  | ['b', '\n'] => some .bit
+  | ['b', '\n'] => if nlOk then some .bit else none
   | ['b', 'i', 't'] => some .bit
-  | ['b', 'i', 't', '\n'] => some .bit
+  | ['b', 'i', 't', '\n'] => if nlOk then some .bit else none
   | ['B'] => some .byte
-  | ['B', '\n'] => some .byte
+  | ['B', '\n'] => if nlOk then some .byte else none
   | _ => none
 
 /-! ### tables -/
 
-def lookupSys (sys : List Char) : Option (Option Nat × List Char × Bool) :=
+def lookupSys (sys : List Char) : Option (Option Nat × List Char × Bool × Bool) :=
   (unitSystemInfo.find? (fun e => e.1 == sys)).map (·.2)
 
 def lookupExp (pfx : List Char) : Option Nat :=
@@ -170,7 +172,7 @@ def compute (sys : List Char) (tableBase : Option Nat) (returnInt neg : Bool)
       (10 ^ (fracDigits d2).length * unitDiv u)
 
 /-- `strutils.string_to_bytes(text, unit_system, return_int)`.
-    (Projections instead of pattern-`let`s: `info = (base, letters, optI)`, `num = (d1, d2, rest)`.) -/
+    (Projections instead of pattern-`let`s: `info = (base, letters, optI, nlOk)`, `num = (d1, d2, rest)`.) -/
 def stringToBytes (sys text : List Char) (returnInt : Bool) : Except Err Outcome :=
   match lookupSys sys with
   | none => .error .valueError                      -- lines 232-236
@@ -178,11 +180,11 @@ def stringToBytes (sys text : List Char) (returnInt : Bool) : Except Err Outcome
     match parseNumber (splitSign text).2 with
     | none => .error .valueError                    -- lines 254-256
     | some num =>
-      match parseUnit (parsePrefix info.2.1 info.2.2 num.2.2).2 with
+      match parseUnit info.2.2.2 (parsePrefix info.2.1 info.2.2.1 num.2.2).2 with
       | none => .error .valueError
       | some u =>
         compute sys info.1 returnInt (splitSign text).1 num.1 num.2.1
-          (parsePrefix info.2.1 info.2.2 num.2.2).1 u
+          (parsePrefix info.2.1 info.2.2.1 num.2.2).1 u
 
 /-! ### QemuImgInfo._extract_bytes -/
 
